@@ -330,66 +330,78 @@ func (idx *RoaringMetadataIndex) queryCategorical(filter Filter) (*roaring.Bitma
 // queryNumeric handles numeric field queries using BSI.
 // Must be called with idx.mu held (at least read lock).
 func (idx *RoaringMetadataIndex) queryNumeric(bsiIndex *bsi.BSI, filter Filter) (*roaring.Bitmap, error) {
+	value, err := toInt64(filter.Value)
+	if err != nil {
+		return nil, err
+	}
+
 	switch filter.Operator {
 	case OpEqual, "": // Equality
-		value, err := toInt64(filter.Value)
-		if err != nil {
-			return nil, err
-		}
-		return bsiIndex.CompareValue(0, bsi.EQ, value, 0, nil), nil
+		return compareNumeric(bsiIndex, bsi.EQ, value), nil
 
 	case OpNotEqual: // Not equal
-		value, err := toInt64(filter.Value)
-		if err != nil {
-			return nil, err
-		}
-		eq := bsiIndex.CompareValue(0, bsi.EQ, value, 0, nil)
 		result := bsiIndex.GetExistenceBitmap().Clone()
-		result.AndNot(eq)
+		result.AndNot(compareNumeric(bsiIndex, bsi.EQ, value))
 		return result, nil
 
 	case OpGreaterThan: // Greater than
-		value, err := toInt64(filter.Value)
-		if err != nil {
-			return nil, err
-		}
-		return bsiIndex.CompareValue(0, bsi.GT, value, 0, nil), nil
+		return compareNumeric(bsiIndex, bsi.GT, value), nil
 
 	case OpGreaterThanOrEqual: // Greater than or equal
-		value, err := toInt64(filter.Value)
-		if err != nil {
-			return nil, err
-		}
-		return bsiIndex.CompareValue(0, bsi.GE, value, 0, nil), nil
+		return compareNumeric(bsiIndex, bsi.GE, value), nil
 
 	case OpLessThan: // Less than
-		value, err := toInt64(filter.Value)
-		if err != nil {
-			return nil, err
-		}
-		return bsiIndex.CompareValue(0, bsi.LT, value, 0, nil), nil
+		return compareNumeric(bsiIndex, bsi.LT, value), nil
 
 	case OpLessThanOrEqual: // Less than or equal
-		value, err := toInt64(filter.Value)
-		if err != nil {
-			return nil, err
-		}
-		return bsiIndex.CompareValue(0, bsi.LE, value, 0, nil), nil
+		return compareNumeric(bsiIndex, bsi.LE, value), nil
 
 	case OpRange: // Range query [value, value2]
-		minVal, err := toInt64(filter.Value)
-		if err != nil {
-			return nil, err
-		}
 		maxVal, err := toInt64(filter.Value2)
 		if err != nil {
 			return nil, err
 		}
-		return bsiIndex.CompareValue(0, bsi.RANGE, minVal, maxVal, nil), nil
+		result := compareNumeric(bsiIndex, bsi.GE, value)
+		result.And(compareNumeric(bsiIndex, bsi.LE, maxVal))
+		return result, nil
 
 	default:
 		return nil, fmt.Errorf("unsupported operator for numeric field: %s", filter.Operator)
 	}
+}
+
+// compareNumeric evaluates one comparison against a BSI.
+//
+// The BSI compares magnitudes when the operand and a stored value differ in sign,
+// so stored values are split by sign: the class with the operand's sign is compared
+// by the BSI, the other class lies entirely below (or above) the operand.
+func compareNumeric(bsiIndex *bsi.BSI, op bsi.Operation, value int64) *roaring.Bitmap {
+	negative := bsiIndex.CompareValue(0, bsi.LT, 0, 0, nil)
+	nonNegative := bsiIndex.GetExistenceBitmap().Clone()
+	nonNegative.AndNot(negative)
+
+	sameSign, otherSign := nonNegative, negative
+	if value < 0 {
+		sameSign, otherSign = negative, nonNegative
+	}
+
+	result := roaring.New()
+	if !sameSign.IsEmpty() {
+		result = bsiIndex.CompareValue(0, op, value, 0, sameSign)
+	}
+
+	switch op {
+	case bsi.LT, bsi.LE:
+		if value >= 0 {
+			result.Or(otherSign) // every negative value is below a non-negative operand
+		}
+	case bsi.GT, bsi.GE:
+		if value < 0 {
+			result.Or(otherSign) // every non-negative value is above a negative operand
+		}
+	}
+
+	return result
 }
 
 // toInt64 converts various numeric types to int64
